@@ -77,6 +77,21 @@ pub fn phase(sim: &mut Sim, rng: &mut Rng, rep: &mut Report, idx: usize) -> Resu
 				}
 			}
 			let takes_funding = conf_h.map(|h| h > tip - d).unwrap_or(false);
+			// a fork that takes the funding transaction away after it had the depth the peers agreed on for
+			// channel_ready is a fault the library answers by closing the channel (half of those are avoided)
+			let min_depth = sim.w.chans[idx].accept.as_ref().map(|m| m.common_fields.minimum_depth).unwrap_or(1).max(1);
+			// (what counts is the highest tip the nodes have seen on top of this confirmation)
+			let locked_in = takes_funding && conf_h.map(|h| sim.w.peak_height.max(tip) + 1 - h >= min_depth).unwrap_or(false);
+			if locked_in && rng.chance(1, 2) {
+				continue;
+			}
+			if locked_in {
+				// (from here on the copies are not compared any more: whether a node had seen the agreed depth is a matter of
+				// the tips it was told, which the delivery styles legitimately differ in)
+				copies.clear();
+				sim.w.chans[idx].fault = Some("funding transaction reorganised out after lock-in".into());
+				rep.count("openfork_reorgs_unconfirming_the_funding_transaction_after_lock_in");
+			}
 			let announce = rng.chance(1, 2);
 			// the transaction may take another while to be mined again (or go straight into the next block)
 			sim.w.miner_release.remove(&ftxid);
@@ -96,6 +111,15 @@ pub fn phase(sim: &mut Sim, rng: &mut Rng, rep: &mut Report, idx: usize) -> Resu
 			}
 		}
 		let before = sim.w.chain.confirmed_at.get(&ftxid).cloned();
+		// copies that replay shallow forks of their own leave a locked-in funding transaction alone
+		{
+			let min_depth = sim.w.chans[idx].accept.as_ref().map(|m| m.common_fields.minimum_depth).unwrap_or(1).max(1);
+			sim.w.copy_reorg_floor = match before {
+				// (the block about to be mined counts: the copies are told of it before they replay anything)
+				Some(h) if sim.w.peak_height.max(sim.w.chain.height() + 1) + 1 - h >= min_depth => h,
+				_ => 0,
+			};
+		}
 		sim.w.mine(1);
 		events_all(sim, rep);
 		if let (Some(h0), Some(h1)) = (conf_h.or(before), sim.w.chain.confirmed_at.get(&ftxid).cloned()) {
@@ -106,7 +130,9 @@ pub fn phase(sim: &mut Sim, rng: &mut Rng, rep: &mut Report, idx: usize) -> Resu
 		if !copies.is_empty() {
 			crate::chainequiv::on_block(sim, &mut copies, rng, rep);
 		}
-		judge_confirmations(sim, rep, idx, "after a block");
+		if sim.w.chans[idx].fault.is_none() {
+			judge_confirmations(sim, rep, idx, "after a block");
+		}
 		if !sim.raised.is_empty() {
 			return Ok(());
 		}
@@ -122,8 +148,24 @@ pub fn phase(sim: &mut Sim, rng: &mut Rng, rep: &mut Report, idx: usize) -> Resu
 			crate::chainequiv::on_block(sim, &mut copies, rng, rep);
 		}
 	}
-	judge_confirmations(sim, rep, idx, "when the chain has settled");
 	drop(copies);
+	sim.w.copy_reorg_floor = 0;
+	if sim.w.chans[idx].fault.is_some() {
+		// (closed by the library, as documented, or about to be; nothing more to open)
+		rep.count("openfork_channels_closed_by_a_fork_after_lock_in");
+		let cid = sim.w.chans[idx].chan_id();
+		let gone = [a, b].iter().filter(|n| !sim.w.nodes[**n].mgr.list_channels().iter().any(|c| c.channel_id == cid)).count();
+		if gone > 0 {
+			// the property says a fork shallower than the anti-reorg depth fully retracts what it removes
+			sim.raised.push(("C11".into(), "E3-funding-fork-after-lock-in".into(), "a fork shallower than the anti-reorg depth that removes a channel's funding transaction after the depth agreed for channel_ready closes the channel for good".into(), format!("chan {}: closed at {} of 2 nodes; the funding transaction {} has {} confirmations on the final chain", idx, gone, ftxid, sim.w.chain.confirmations(&ftxid))));
+		}
+		sim.w.miner_delay_max = saved_delay;
+		sim.w.miner_release.clear();
+		sim.w.connect(a, b);
+		events_all(sim, rep);
+		return Ok(());
+	}
+	judge_confirmations(sim, rep, idx, "when the chain has settled");
 	sim.w.miner_delay_max = saved_delay;
 	sim.w.miner_release.clear();
 	sim.w.note(format!("OPENFORK node{} and node{} reconnect", a, b));
